@@ -358,3 +358,51 @@ def sphere_histories(ctx, tag: str, N: int, nmax: int):
                 cov.hit("sphere-e2e:bit-identical")
             cov.hit("sphere-e2e:call-ok")
         cov.traces += 1
+
+
+def smap_epoch_histories(ctx, tag: str, N: int, nmax: int):
+    """SimpleARTMAP(FuzzyART).fit with max_iter = 2..4 against the Lean `smapFitEpochs`: labels_a of the last
+    epoch, weights, map, counters (which keep counting across epochs)"""
+    from ..impl import SimpleARTMAP
+    cov = ctx.cov
+    lines, metas = [], []
+    for i in range(N):
+        r = gen.rng_for(ctx.seed, tag + "-smapk", i)
+        d, spec, n, X = gen_case(r, "FuzzyART", nmax)
+        if spec["beta"] != 1.0:
+            n = min(n, 4)
+            X = X[:n]
+        mode = r.choice(MODES)
+        eps = r.choice([0.0, 2.0 ** -20, 2.0 ** -10, 0.125])
+        k = r.choice([2, 3, 4])
+        y = gen.labels(r, n, r.randint(1, 4))
+        m = SimpleARTMAP(make(spec))
+        rep = {"spec": spec, "mode": mode, "eps": eps, "epochs": k, "X": X.tolist(), "y": y.tolist()}
+        try:
+            with quiet():
+                m.fit(X, y, max_iter=k, match_tracking=mode, epsilon=eps)
+        except Exception as e:
+            ctx.issue("violation", f"SimpleARTMAP(FuzzyART).fit:multi-epoch:{exc_enum(e)}", f"fit(max_iter={k}) raised {e!r}", rep)
+            continue
+        lines.append(f"hist smapk fuzzy {mode} {q2s(eps)} - {kernel_hdr('FuzzyART', spec, d)} # {k} {mat_q(X)} {nats(y)}")
+        metas.append((i, m, rep))
+        cov.case(("smapk", spec, rep["X"], rep["y"], mode, eps, k), n > 1)
+    outs = run_driver(lines)
+    for line, out, (i, m, rep) in zip(lines, outs, metas):
+        rep = dict(rep, line=line, model=out)
+        if not out.startswith("W="):
+            ctx.issue("diff", "e2e-smapk:protocol", f"case {i}: model output {out[:80]}", rep)
+            continue
+        kv = parse_kv(out)
+        mm = {j: v for j, v in enumerate(parse_optnats(kv["map"])) if v is not None}
+        ok = (parse_nats(kv["labels"]) == [int(t) for t in m.module_a.labels_]
+              and mm == {int(a): int(b) for a, b in m.map.items()}
+              and cmp_W([np.array(w, dtype=float) for w in m.module_a.W], parse_mat_q(kv["W"]))
+              and parse_nats(kv["cnt"]) == [int(t) for t in m.module_a.weight_sample_counter_]
+              and int(kv["n"]) == int(m.module_a.sample_counter_))
+        if not ok:
+            ctx.issue("diff", "e2e-smapk:state", f"case {i}: after fit(max_iter={rep['epochs']}) impl labels_a "
+                      f"{[int(t) for t in m.module_a.labels_]} map {dict(m.map)} cnt {list(m.module_a.weight_sample_counter_)}; model {out[:200]}", rep)
+        else:
+            cov.hit("e2e-smapk-ok")
+        cov.traces += 1
